@@ -156,3 +156,117 @@ def h_two_points(o1: int, gap: int):
     # (start,end,PnD): start and end equal the resolved values and end - start equals the duration
     want = ['(', (a.year, 4), '-', (a.month, 2), '-', (a.day, 2), ',', (b.year, 4), '-', (b.month, 2), '-', (b.day, 2), ',P', (gap, 0), 'D)']
     assert digits.same(tx, want)
+
+
+# ---- "from <time> to <time>": BaseTimePeriodParser.merge_two_time_points ------------------------------------------------------------
+TPP = CFG.time_period_parser
+AMPM1, AMPM2 = sl('ampm1', 0), sl('ampm2', 0)      # the endpoint was written without am/pm (the time parser marks it 'ampm')
+
+
+class _TwoTimes:
+    def extract(self, source, reference=None):
+        a, b = ExtractResult(), ExtractResult()
+        a.start, a.length, a.text, a.type = 5, 2, 'T1', Constants.SYS_DATETIME_TIME
+        b.start, b.length, b.text, b.type = 11, 2, 'T2', Constants.SYS_DATETIME_TIME
+        return [a, b]
+
+
+class _TimeParser:
+    """stands for BaseTimeParser.parse (C07 decides what it returns): a time on the reference date, its TIMEX, the 'ampm' comment"""
+    times = None
+
+    def parse(self, er, reference=None):
+        h, m, amb = self.times[0 if er.text == 'T1' else 1]
+        val = DateTimeResolutionResult()
+        val.future_value = val.past_value = datetime(reference.year, reference.month, reference.day, h, m, 0)
+        val.comment = 'ampm' if amb else ''
+        val.success = True
+        pr = DateTimeParseResult(er)
+        pr.value = val
+        pr.timex_str = 'T' + digits.ph(h, 2) + ':' + digits.ph(m, 2)
+        return pr
+
+
+def _tp_setup(h1, m1, h2, m2):
+    TPP.config._time_extractor = _TwoTimes()
+    tp = _TimeParser()
+    tp.times = [(h1, m1, AMPM1), (h2, m2, AMPM2)]
+    TPP.config._time_parser = tp
+
+
+def h_time_points(ry: int, rmo: int, rd: int, h1: int, m1: int, h2: int, m2: int):
+    """two clock times as the time parser delivers them (explicit am/pm: any h:m; without am/pm: hour 1..12 and the 'ampm' mark):
+    the range is self-consistent -- start < end <= start + 24 h, both on the clock times given (an unmarked endpoint may move by
+    12 h), and the duration written in the TIMEX equals end - start"""
+    assert 1950 <= ry <= 2090 and 1 <= rmo <= 12 and 1 <= rd <= 28
+    assert 0 <= h1 <= 23 and 0 <= m1 <= 59 and 0 <= h2 <= 23 and 0 <= m2 <= 59
+    digits.reset()
+    assume((not AMPM1 or 1 <= h1 <= 12) and (not AMPM2 or 1 <= h2 <= 12))
+    assume(not (h1 == h2 and m1 == m2) or AMPM2)            # "5pm to 5pm" (empty range) is not a range
+    _tp_setup(h1, m1, h2, m2)
+    ref = datetime(ry, rmo, rd, 9, 30, 0)
+    r = TPP.merge_two_time_points('from T1 to T2', ref)
+    assert r.success is True
+    b, e = r.future_value.start, r.future_value.end
+    assert r.past_value.start == b and r.past_value.end == e
+    day0 = datetime(ry, rmo, rd, 0, 0, 0)
+    bs = (b - day0).total_seconds()
+    es = (e - day0).total_seconds()
+    t1, t2 = h1 * 3600 + m1 * 60, h2 * 3600 + m2 * 60
+    assert bs == t1 or (AMPM1 and bs == t1 + 12 * 3600)
+    assert es % 86400 == t2 or (AMPM2 and es % 86400 == (t2 + 12 * 3600) % 86400)
+    assert bs < es <= bs + 86400
+    # the duration written in the TIMEX
+    tx = digits.decode(r.timex)
+    j = digits._join(digits._norm(tx)) if hasattr(digits, '_join') else tx
+    dur = es - bs
+    hh, mm = dur // 3600, dur % 3600 // 60
+    want_tail = [',PT']
+    tail = _after_last_comma(j)
+    got_h, got_m = _hm_of(tail)
+    assert got_h == hh and got_m == mm
+
+
+def _after_last_comma(items):
+    """the decoded items after the second comma of '(A,B,PT..)'"""
+    out, commas = [], 0
+    for it in items:
+        if isinstance(it, str):
+            for ch in it:
+                if ch == ',':
+                    commas += 1
+                    out = []
+                else:
+                    out.append(ch)
+        else:
+            out.append(it)
+    return out
+
+
+def _hm_of(tail):
+    """'PT' [n 'H'] [n 'M'] ')' -> (hours, minutes), absent parts = 0"""
+    assert tail[:2] == ['P', 'T'] and tail[-1] == ')'
+    body = tail[2:-1]
+    h = m = 0
+    i = 0
+    while i < len(body):
+        it = body[i]
+        assert not isinstance(it, str), ('number expected', body)
+        assert i + 1 < len(body) and body[i + 1] in ('H', 'M'), ('unit expected', body)
+        if body[i + 1] == 'H':
+            h = it[0]
+        else:
+            m = it[0]
+        i += 2
+    assert len(body) >= 2, 'empty duration'
+    return h, m
+
+
+def t_time_points(ry: int, rmo: int, rd: int, h1: int, m1: int, h2: int, m2: int):
+    assert 1950 <= ry <= 2090 and 1 <= rmo <= 12 and 1 <= rd <= 28
+    assert 0 <= h1 <= 23 and 0 <= m1 <= 59 and 0 <= h2 <= 23 and 0 <= m2 <= 59
+    digits.reset()
+    assume((not AMPM1 or 1 <= h1 <= 12) and (not AMPM2 or 1 <= h2 <= 12))
+    _tp_setup(h1, m1, h2, m2)
+    r = TPP.merge_two_time_points('from T1 to T2', datetime(ry, rmo, rd, 9, 30, 0))
+    assert r.success is False
